@@ -187,6 +187,7 @@ func (r *rewriter) rewriteFile(f *loader.File, printer FilePrinter) {
 	do(r.rewriteForRanges)          // rewrite range co.Iter to for loop co.Iter
 	do(mkYieldRewriter(r, pkg))     // rewrite yield func
 	do(r.rewriteIter)               // rewrite all co.Iter to seq.Iterator
+	do(r.mkRejectYieldValue())      // a yield that is not a call statement would be the no-op stub
 
 	// 3. write file
 	log.Printf("write file: %s\n", f.Filename)
@@ -194,6 +195,42 @@ func (r *rewriter) rewriteFile(f *loader.File, printer FilePrinter) {
 	// https://github.com/golang/go/issues/20744
 	f.File.Comments = r.comments
 	printer(f.Filename, f)
+}
+
+// Yield / YieldFrom are statements: a reference that is not the callee of a call statement
+// (a function value: f := Yield[int], each(xs, Yield[int])) would silently do nothing.
+// Call statements still present here are unreachable code the rewriting kept as it was.
+func (r *rewriter) mkRejectYieldValue() func(*astutil.Cursor, loader.Pkg) bool {
+	called := map[*ast.Ident]bool{}
+	return func(c *astutil.Cursor, pkg loader.Pkg) bool {
+		switch n := c.Node().(type) {
+		case *ast.Ident:
+			// post-order: the identifier is visited before the statement it belongs to
+			if obj := pkg.ObjectOf(n); obj != nil && (obj == r.yieldFunc || obj == r.yieldFromFunc) {
+				called[n] = false
+			}
+		case *ast.ExprStmt:
+			call, ok := r.isYieldCall(pkg, n)
+			if !ok {
+				call, ok = r.isYieldFromCall(pkg, n)
+			}
+			if ok {
+				ast.Inspect(call.Fun, func(x ast.Node) bool {
+					if id, isId := x.(*ast.Ident); isId {
+						if _, seen := called[id]; seen {
+							called[id] = true
+						}
+					}
+					return true
+				})
+			}
+		case *ast.File:
+			for id, ok := range called {
+				r.assert(pkg, ok, id, "%s must be called in a statement of its own", id.Name)
+			}
+		}
+		return true
+	}
 }
 
 // ↓↓↓↓↓↓↓↓↓↓↓↓↓↓↓↓↓↓↓↓↓↓ Collect YieldFunc ↓↓↓↓↓↓↓↓↓↓↓↓↓↓↓↓↓↓↓↓↓↓
